@@ -223,7 +223,8 @@ def pmtm(x, NW=None, k=None, NFFT=None, e=None, v=None, method="adapt", show=Fal
         # Set tolerance for acceptance of spectral estimate:
         tol = 0.0005 * sig2 / float(NFFT)
         i = 0
-        a = sig2 * (1 - eigenvalues)
+        # a concentration ratio can come out as 1 + a few ulp: 1 - lambda must not go negative
+        a = sig2 * (1 - np.minimum(eigenvalues, 1.0))
         wk = np.ones((NFFT, 1)) * eigenvalues.transpose()
 
         # converges very quickly but for safety; set i<100
